@@ -1,7 +1,7 @@
 #!/bin/sh
-# usage: seedintake.sh <Cnn> <slug>   : verify /tmp/wt/<Cnn>/seed in a fresh worktree, copy to /verif/seeded/<Cnn>-<slug>, run the check
-C=$1; SL=$2
-W=/tmp/wt/$C
+# usage: seedintake.sh <Cnn> <slug> [worktree]  : verify <worktree>/seed (default /tmp/wt/<Cnn>) in a fresh worktree,
+#        copy to /verif/seeded/<Cnn>-<slug>, run the property's check against it
+C=$1; SL=$2; W=${3:-/tmp/wt/$C}
 [ -f $W/seed/patch.diff ] || { echo "no patch in $W/seed"; exit 3; }
 /verif/tools/seedverify.sh $W > /tmp/seedintake-$C.log 2>&1
 grep -E "^exit=|passed|failed|does not apply|changed" /tmp/seedintake-$C.log | tr '\n' ' '; echo
